@@ -39,6 +39,7 @@ class Engine:
         self._expr_cache = {}
         self.assumptions = []
         self.inline_ok = set()
+        self.inlined = set()
         self.lemma_log = {}
 
     # -- small services used by Path -------------------------------------------------
@@ -206,6 +207,9 @@ class Engine:
         if typ == "dict":
             return path.alloc(HDict(sym=(path.fresh(name + "_keys", KEYSEQ), path.fresh(name + "_has", z3.ArraySort(KEY, B)),
                                          path.fresh(name + "_map", z3.ArraySort(KEY, PV)))))
+        if typ.startswith("tuple["):
+            parts = [x.strip() for x in typ[6:-1].split(",")]
+            return VTuple([self.make_symbolic(path, f"{name}_{i}", t) for i, t in enumerate(parts)])
         if typ == "set":
             return path.alloc(HSet(path.fresh(name + "_has", z3.ArraySort(KEY, B))))
         if typ.startswith("const:"):
